@@ -1,5 +1,6 @@
 import Avfs.Driver.Idm
 import Avfs.Driver.Path
+import Avfs.Driver.Copy
 /-
   avfsdrv: line-protocol driver. One input line -> exactly one output line.
   Core Lean only (links natively).
@@ -15,6 +16,7 @@ def stepLine (st : DState) (line : String) : DState × String :=
   | "idm" :: rest => let (s, o) := Idm.exec st.idm rest; ({ st with idm := s }, o)
   | "idmspec" :: rest => let (s, o) := Idm.specExec st.idmSpec rest; ({ st with idmSpec := s }, o)
   | "path" :: rest => (st, Path.exec rest)
+  | "copy" :: rest => (st, Copy.exec rest)
   | "pathspec" :: rest => (st, Path.specExec rest)
   | ["#"] => (st, "#")
   | _ => (st, "bad-op")
